@@ -76,6 +76,12 @@ def run(ctx, rep):
                 rep.violation('R1-start', '%s:counts' % kind, 'the %s wrapper calls the hook %d time(s) and pushes the inputs %d time(s) on a path (expected 1 and 1)' % (kind, len(hooks), len(pushes)), c.fn.where())
                 break
             pushed_idx.add(pushes[0][1])
+            # the inputs queued for the end notification are the ones the hook left behind: the hook
+            # takes `&mut inputs` and may rewrite them, so the clone is pushed after the hook returned
+            if tk.index(pushes[0]) < tk.index(hooks[0]):
+                ok = False
+                rep.violation('R1-start', '%s:push-after-hook' % kind, 'the %s wrapper queues the inputs before calling Inspector::%s: the matching %s_end would carry the inputs as they were before the inspector changed them' % (kind, kind, kind), c.fn.where())
+                break
             if supplied is True:
                 if prevs:
                     ok = False
